@@ -357,14 +357,37 @@ def impl(case):
                 cc = None
             else:
                 cc = tuple(np.array(x) for x in [coords[0], coords[1]] + list(coords[2]))
-            r = C.call(g.grid, region=None if region is None else tuple(region), shape=shape, spacing=spacing, dims=dims, data_names=names,
-                       projection=proj_fn(proj), coordinates=cc, **kw)
+            import zlib
+            h = zlib.crc32(("hist" + case["op"][:3000]).encode()) % 4
+            pf = proj_fn(proj)
+            if h == 0 and coords is None:
+                # history: the same object gridded just before, same region / shape or spacing / projection, but the OTHER registration and the
+                # other adjustment (same number of nodes, other node positions): nothing of it may survive into the call under test
+                try:
+                    g.grid(region=None if region is None else tuple(region), shape=shape, spacing=spacing, dims=dims, data_names=names, projection=pf,
+                           adjust=("region" if adjust == "spacing" else "spacing"), pixel_register=not pixel)
+                    g.grid(region=None if region is None else tuple(region), shape=shape, spacing=spacing, dims=dims, data_names=names, projection=pf,
+                           adjust=adjust, pixel_register=not pixel)
+                except Exception:  # noqa: BLE001  (invalid arguments fail here as they will below)
+                    pass
+            call_dims = dims
+            if h == 1 and dims is not None:
+                # the dimension names as an attribute of the gridder (a geographic subclass sets dims = ("latitude", "longitude")) instead of an
+                # argument: grid() must honour them like profile() and scatter() do
+                g.dims = tuple(dims)
+                call_dims = None
+            r = C.call(g.grid, region=None if region is None else tuple(region), shape=shape, spacing=spacing, dims=call_dims, data_names=names,
+                       projection=pf, coordinates=cc, **kw)
             return r if C.is_err(r) else _ds_out(r)
         if fn == "profile":
             coefs, p1, p2, size, proj, extra, dims, names = a
             g = _gridder(coefs, None)
             kw = {} if extra is None else {"extra_coords": extra}
-            r = C.call(g.profile, p1, p2, size, dims=dims, data_names=names, projection=proj_fn(proj, True), **kw)
+            call_dims = dims
+            if dims is not None and len(case["op"]) % 2:
+                g.dims = tuple(dims)
+                call_dims = None
+            r = C.call(g.profile, p1, p2, size, dims=call_dims, data_names=names, projection=proj_fn(proj, True), **kw)
             if C.is_err(r):
                 return r
             t = _table_out(r)
@@ -376,7 +399,11 @@ def impl(case):
             coefs, rdef, region, size, seed, extra, proj, dims, names = a
             g = _gridder(coefs, rdef)
             kw = {} if extra is None else {"extra_coords": extra}
-            r = C.call(g.scatter, region=None if region is None else tuple(region), size=size, random_state=seed, dims=dims, data_names=names,
+            call_dims = dims
+            if dims is not None and len(case["op"]) % 2:
+                g.dims = tuple(dims)
+                call_dims = None
+            r = C.call(g.scatter, region=None if region is None else tuple(region), size=size, random_state=seed, dims=call_dims, data_names=names,
                        projection=proj_fn(proj), **kw)
             return r if C.is_err(r) else _table_out(r)
     raise C.Infra("unknown fn")
